@@ -54,6 +54,12 @@ func (w *hostileWorld) controlOK() bool {
 	case ok := <-done:
 		return ok
 	case <-time.After(2 * time.Second):
+	}
+	// slow is not dead: on a loaded machine the answer may simply be late
+	select {
+	case ok := <-done:
+		return ok
+	case <-time.After(8 * time.Second):
 		return false
 	}
 }
@@ -78,7 +84,7 @@ func validFrame(proto string, seq int32, tag string) []byte {
 func (w *hostileWorld) feed(proto string, input []byte, followValid bool) (state string, allocDelta uint64, replies int) {
 	w.n++
 	a, b := Pipe(fmt.Sprintf("HC%d", w.n), fmt.Sprintf("HS%d", w.n))
-	a.Tap()
+	a.TapIn() // (only the answers are looked at)
 	var ss erpc.Session
 	sd := make(chan struct{})
 	go func() { ss, _ = w.srv.ServeConn(b, protoFunc(proto)); close(sd) }()
@@ -88,19 +94,28 @@ func (w *hostileWorld) feed(proto string, input []byte, followValid bool) (state
 	}
 	var ms1, ms2 runtime.MemStats
 	runtime.ReadMemStats(&ms1)
-	a.Write(input)
+	if len(input) <= 64<<10 {
+		a.Write(input)
+	} else {
+		// a long input is delivered in small pieces, each once the reader has taken the one before, so that the
+		// in-memory connection itself buffers next to nothing and what is measured is the receiver's doing
+		for off := 0; off < len(input); off += 32 << 10 {
+			end := off + 32<<10
+			if end > len(input) {
+				end = len(input)
+			}
+			if _, err := a.Write(input[off:end]); err != nil {
+				break
+			}
+			if !WaitUntil(200*time.Millisecond, func() bool { return a.Unread() == 0 }) {
+				break
+			}
+		}
+	}
 	// give the reader the time to consume the input
 	time.Sleep(1500 * time.Microsecond)
 	runtime.ReadMemStats(&ms2)
-	// what the harness itself allocates for the input (the in-memory connection's buffer and the tap copy, each
-	// as long as the input) is not the receiver's doing
-	noise := uint64(2 * len(input))
-	sub := func(d uint64) uint64 {
-		if d > noise {
-			return d - noise
-		}
-		return 0
-	}
+	sub := func(d uint64) uint64 { return d }
 	allocDelta = sub(ms2.TotalAlloc - ms1.TotalAlloc)
 	functional := false
 	if followValid && ss.Health() {
